@@ -30,11 +30,20 @@ def gen_case(rng, tier):
         c = gfi.gen_model_case(rng, tier, depth=rng.choice([0, 1, 1]), dists=DISCRETE, max_blocks=2)
     else:
         c = gfi.gen_model_case(rng, tier)
-    paths = ref.model_paths(c["model"])
+    has_alt = not tree and rng.random() < 0.3
+    if has_alt:
+        # a static argument switches additional addresses on: the same function object visits different
+        # address sets in different calls of one history
+        c["model"]["alt_blocks"] = [{"k": "site", "a": "y%d" % i, "d": rng.choice(progs.CONT + progs.DISC), "kw": False}
+                                    for i in range(rng.randint(1, 2))]
+    paths0 = ref.model_paths(c["model"])
+    paths1 = ref.model_paths(progs.alt_model(c["model"]))
     ops = []
     n = 1 if tree else rng.randint(2, 4 if tier == "quick" else 7)
     for _ in range(n):
-        mode = rng.choice(["none", "all", "some", "some", "one", "subcall_missing", "none_arg"])
+        alt = has_alt and rng.random() < 0.5
+        paths = paths1 if alt else paths0
+        mode = rng.choice(["none", "all", "some", "some", "one", "subcall_missing", "none_arg"] + (["alt_only", "alt_only"] if alt else []))
         if mode == "subcall_missing":
             tops = sorted({p[0] for p in paths if len(p) > 1})
             if tops:
@@ -42,6 +51,8 @@ def gen_case(rng, tier):
                 sub = [p for p in paths if p[0] != drop]
             else:
                 sub = gfi.pick_subset(rng, paths, "some")
+        elif mode == "alt_only":
+            sub = [p for p in paths1 if p not in paths0][: rng.randint(1, 2)]
         elif mode == "none_arg":
             sub = None  # generate(None, ...)
         else:
@@ -50,6 +61,8 @@ def gen_case(rng, tier):
               "rseed": rng.randint(0, 2**30), "key": rng.randint(0, 2**30)}
         if not tree:
             op["cfg"] = rng.choice(["eager", "scripted", "scripted", "jit", "vmap"])
+        if alt:
+            op["alt"] = True
         ops.append(op)
     c["ops"] = ops
     return c
@@ -65,16 +78,21 @@ def constraint_map(model, h, paths, rseed):
 def run_case(case):
     if "bare" in case:
         return bare.run_case(case)
-    model, h = case["model"], case["h"]
-    gf = progs.build(model)
+    model0, h = case["model"], case["h"]
+    gf0 = progs.build(model0)
     viol = []
     probes = {"generate": 0, "scripted": 0, "none": 0, "all": 0, "partial": 0, "partial_in_vec": 0,
               "subcall_missing": 0, "none_arg": 0, "tree": 0, "tree_complete": 0, "tree_leaves": 0}
     steps = evals = 0
     hist = []
-    all_paths = [tuple(p) for p in ref.model_paths(model)]
     for op in case["ops"]:
         steps += 1
+        if op.get("alt"):
+            model, gf = progs.alt_model(model0), progs.WithStatic(gf0)
+            probes["static_alt_call"] = probes.get("static_alt_call", 0) + 1
+        else:
+            model, gf = {"blocks": model0["blocks"]}, gf0
+        all_paths = [tuple(p) for p in ref.model_paths(model)]
         paths = None if op["paths"] is None else [tuple(p) for p in op["paths"]]
         cons, _ = constraint_map(model, h, paths, op["rseed"])
         x = None if cons is None else gfi.to_jnp(cons)
@@ -110,8 +128,8 @@ def run_case(case):
         if viol:
             break
     return {"violations": viol, "steps": steps, "probes": probes, "evals": evals, "faults": {},
-            "key": progs.shape_key(model) + "|" + ",".join(hist),
-            "nontrivial": bool(progs.combinators(model)),
+            "key": progs.shape_key(model0) + "|" + ",".join(hist),
+            "nontrivial": bool(progs.combinators(model0)),
             "extra": {"trees_complete": probes["tree_complete"]}}
 
 
@@ -217,8 +235,10 @@ def shrink(case):
             yield c
     for m in gfi.shrink_model(case["model"]):
         c = copy.deepcopy(case)
+        if case["model"].get("alt_blocks"):
+            m = dict(m, alt_blocks=case["model"]["alt_blocks"])
         c["model"] = m
-        valid = {tuple(p) for p in ref.model_paths(m)}
+        valid = {tuple(p) for p in ref.model_paths(progs.alt_model(m))}
         for o in c["ops"]:
             if o["paths"] is not None:
                 o["paths"] = [p for p in o["paths"] if tuple(p) in valid]
